@@ -6,6 +6,8 @@ from concurrent.futures import ThreadPoolExecutor
 HERE = os.path.dirname(os.path.dirname(os.path.abspath(__file__)))
 ENV = dict(os.environ, GOFLAGS="-mod=mod", GOPROXY="off", GOWORK="off")
 props = [c["property_id"] for c in json.load(open(os.path.join(HERE, "MANIFEST.json")))["checks"]]
+if os.environ.get("PROPS"):
+    props = os.environ["PROPS"].split(",")
 def one(p):
     s = tempfile.mkdtemp(prefix="otterlint-neutral-")
     try:
